@@ -194,7 +194,8 @@ def run_harness_sharded(binary, cmd, plan, wd, nproc=None, timeout=3000, env=Non
 
 # ---------------------------------------------------------------- judge (TLC on recorded traces)
 
-VIOL_RE = re.compile(r'^<<"VIOL", (\d+), (-?\d+), (-?\d+), \{(.*)\}>>')
+# one line per (event, predicate name): short tuples are never wrapped by TLC's pretty printer
+VIOL_RE = re.compile(r'^<<"VIOL", (\d+), (-?\d+), (-?\d+), "(\w+)">>')
 JUDGED_RE = re.compile(r'^<<"JUDGED", (\d+), (\d+), (\d+)>>')
 
 
@@ -206,12 +207,18 @@ def _judge_one(args):
     out = tlc(spec, cfg, workers=1, timeout=3600, env={"TRACE": path}, heap=heap,
               java_opts="-Xss1g -XX:CICompilerCount=2", gc="-XX:+UseSerialGC")
     viols = []
+    byline = {}
     judged = None
     for line in out.splitlines():
+        if '"VIOL"' in line and not VIOL_RE.match(line):
+            raise ToolError("unparsable VIOL line from the judge: " + line[:300])
         m = VIOL_RE.match(line)
         if m:
-            names = [x.strip().strip('"') for x in m.group(4).split(",") if x.strip()]
-            viols.append({"file": path, "line": int(m.group(1)), "run": int(m.group(2)), "i": int(m.group(3)), "names": names})
+            k = int(m.group(1))
+            if k not in byline:
+                byline[k] = {"file": path, "line": k, "run": int(m.group(2)), "i": int(m.group(3)), "names": []}
+                viols.append(byline[k])
+            byline[k]["names"].append(m.group(4))
         m = JUDGED_RE.match(line)
         if m:
             judged = (int(m.group(1)), int(m.group(2)))
